@@ -63,7 +63,7 @@ def run_script(script_text, fn, queries, extra_probes=None, per_query_timeout=3.
             if i < len(lines) and lines[i].count("\x1e") == 2:
                 rc, rep, calls = lines[i].split("\x1e")
                 r["rc"] = int(rc) if rc.lstrip("-").isdigit() else -3
-                r["reply"] = rep.split("\x1f") if rep else []
+                r["reply"] = rep.split("\x1f")[:-1] if rep else []
                 r["calls"] = []
                 for c in (calls.split("\x1d") if calls else []):
                     fs = c.split("\x1f")
